@@ -102,6 +102,16 @@ CHECKS["C02"] = dict(
          "compares multisets of results with the satisfying assignments and the() with the count (thorough: 7.5k queries).",
     note="Same assumptions as C01; multiplicity of whole queries with predicates is bounded-only.",
 )
+CHECKS["C08"] = dict(
+    category="other",
+    technique="contract-based deductive verification: heap-shape contracts on the rule-tree surgery (real rule.py executed on every local tree shape up to 4 ancestors) + bounded reference RDR interpreter driver",
+    text="refinement / alternative / next_rule (and the constructors and parent setters they call) are executed on every local shape of a partially "
+         "built tree (stack top plus up to 4 ancestors of any kind and side: 1555 shapes per builder); posts: the new selector takes the "
+         "evaluation position of the (top of the) current rule, no written branch is dropped from the evaluation tree, the new branch is "
+         "returned, parent pointers follow the evaluation tree. Selection at evaluation time and instance construction are decided by the "
+         "bounded driver (trees of <= 5 branches in every nesting vs a reference ripple-down-rules interpreter).",
+    note="RWXNode abstracted as a record with a parent field; ancestor chains longer than 4 not explored; update_conclusion de-duplication bounded-only.",
+)
 NOT_APPLICABLE = {
     "C05": "decided by SQLAlchemy/SQLite semantics acting on generated code; no krrood function body carries it, so no contract within reach can express it (DESIGN.md §4)",
 }
